@@ -94,3 +94,20 @@ theorem C01_ldpc_roundtrip {V : Type} [AddCommGroup V] (h2 : ∀ v : V, v + v = 
 -- non-vacuity: the byte-string XOR operations are lawful on symbols of one length is assumed (`Gauss.Lawful`); the invariant's
 -- premises are met by a concrete block: equation [0,1,2] over Bool symbols with the block (true, true, false)
 example : ITSound.S Gauss.boolOps (fun e => [true, true, false].getD e false) [0, 1, 2] = Gauss.boolOps.zero := by decide
+
+/-! ### the executable Reed-Solomon decoder function (`RS.interpolate` as run by `Api.rsDecode`) -/
+
+/-- **The Reed-Solomon decoder function of the model never returns a wrong symbol**: `RS.interpolate` applied to any k received symbols
+with distinct ESIs below n ≤ 2^m − 1, each holding the codeword position of its ESI, returns the source position — GF(2^8) -/
+theorem C01_rs_interpolate_sound_gf8 (k n : ℕ) (hk : k ≤ n) (hn : n ≤ 255) (src : ℕ → GF8.GF256) (recv : List (ℕ × GF8.GF256))
+    (hnd : (recv.map (·.1)).Nodup) (hlt : ∀ p ∈ recv, p.1 < n) (hlen : recv.length = k)
+    (hval : ∀ p ∈ recv, p.2 = GF8.modelx.cwModel k src p.1) (j : ℕ) (hj : j < k) :
+    RS.interpolate RS.fld8x GF8.modelx.fieldOps recv j = src j :=
+  GF8.modelx.interpolate_correct k n (by simpa [GF8.modelx] using hn) hk src recv hnd hlt hlen hval j hj
+
+/-- … GF(2^4) -/
+theorem C01_rs_interpolate_sound_gf4 (k n : ℕ) (hk : k ≤ n) (hn : n ≤ 15) (src : ℕ → GF4.GF16) (recv : List (ℕ × GF4.GF16))
+    (hnd : (recv.map (·.1)).Nodup) (hlt : ∀ p ∈ recv, p.1 < n) (hlen : recv.length = k)
+    (hval : ∀ p ∈ recv, p.2 = GF4.modelx.cwModel k src p.1) (j : ℕ) (hj : j < k) :
+    RS.interpolate RS.fld4x GF4.modelx.fieldOps recv j = src j :=
+  GF4.modelx.interpolate_correct k n (by simpa [GF4.modelx] using hn) hk src recv hnd hlt hlen hval j hj
